@@ -35,6 +35,7 @@ def cases(tier: str, seed: int) -> list[dict]:
               dict(base, a="PolyCollection", var="plotv", mode="name"),
               dict(base, a="PolyCollection", var="flag", mode="array"),
               dict(base, a="PolyCollection", var="plotv", mode="anon"),
+              dict(base, a="PolyCollection", var="plotv", mode="name", api="make_patch_collection"),     # the older public name
               dict(base, a="PolyCollection", var="pv", mode="name", clim=[-5, 123456]),
               dict(base, a="PolyCollection", var="plotv", mode="name", transform=True),
               dict(base, a="PolyCollection", var="temp", mode="name", refuse="dims"),
